@@ -892,6 +892,13 @@ def witnesses():
         {"kind": "native", "cls": "witness-lat-shift", "rect": [10.0, 10.0, 10.02, 10.02]},
         {"kind": "tiles", "cls": "witness-lon-wrap", "rect": [10.0, -180.0, 20.0, -170.0]},
         {"kind": "elev", "cls": "witness-lon-wrap", "rect": [10.0, -180.0, 10.05, -179.95]},
+        # an edge exactly on the equator / the Greenwich meridian (the number 0, float and int)
+        {"kind": "elev", "cls": "edge-zero", "rect": [0.0, 5.0, 0.25, 5.5]},
+        {"kind": "elev", "cls": "edge-zero", "rect": [-0.25, 5.0, 0.0, 5.5]},
+        {"kind": "elev", "cls": "edge-zero", "rect": [10.0, 0.0, 10.25, 0.5]},
+        {"kind": "elev", "cls": "edge-zero", "rect": [10.0, -0.5, 10.25, 0]},
+        {"kind": "elev", "cls": "edge-zero", "rect": [0, 0, 0.1, 0.1]},
+        {"kind": "native", "cls": "edge-zero", "rect": [0.0, 0.0, 0.25, 0.25]},
     ]
 
 
@@ -982,13 +989,15 @@ def tile_zip_bytes(name):
 class _Transfer:
     """What urlopen returns: delivers the archive, or breaks off after `fail_after` bytes."""
 
-    def __init__(self, data, fail_after=None):
-        self.data, self.pos, self.fail_after = data, 0, fail_after
+    def __init__(self, data, fail_after=None, piece=None):
+        self.data, self.pos, self.fail_after, self.piece = data, 0, fail_after, piece
 
     def read(self, n=-1):
         if self.fail_after is not None and self.pos >= self.fail_after:
             raise ConnectionResetError("harness: transfer broken off")
         end = len(self.data) if n is None or n < 0 else min(len(self.data), self.pos + n)
+        if self.piece:
+            end = min(end, self.pos + self.piece)      # the body arrives in pieces (short reads)
         if self.fail_after is not None:
             end = min(end, max(self.fail_after, self.pos + 1))
         out = self.data[self.pos:end]
@@ -1032,6 +1041,8 @@ def check_download(rec, case):
         if what == "refused":
             raise OSError("harness: connection refused")
         data = tile_zip_bytes(name)
+        if what == "pieces":
+            return _Transfer(data, None, piece=1500)
         return _Transfer(data, None if what == "ok" else int(len(data) * float(what)))
     try:
         topo._data_path = tmp
@@ -1045,7 +1056,7 @@ def check_download(rec, case):
             try:
                 y = np.asarray(SRTM30.get_tile(name))
             except Exception as exc:
-                if before < len(requests) and step < len(case["plan"]) and case["plan"][step] != "ok":
+                if before < len(requests) and step < len(case["plan"]) and case["plan"][step] not in ("ok", "pieces"):
                     rec.count("download.faults_reaching_caller")
                     continue             # the injected fault reached the caller: fine
                 rec.violation("srtm-cache-exception", case,
@@ -1074,7 +1085,7 @@ def check_download(rec, case):
 def run_cache(spec, rec):
     rng = rng_for(spec["seed"], "c20-cache", spec["shard"])
     from vt.models import srtm_model as m
-    for plan in ([], ["refused"], [rng.choice(["0.0", "0.3", "0.9"])],
+    for plan in ([], ["pieces"], ["refused"], [rng.choice(["0.0", "0.3", "0.9"])],
                  [rng.choice(["0.5", "0.99"]), "refused"]):
         check_download(rec, {"kind": "download", "name": rng.choice([t[0] for t in m.TILES]), "plan": plan})
     for i in range(spec["n"]):
